@@ -714,102 +714,131 @@ def be32(buf, i):
     return be16(buf, i) * 65536 + be16(buf, i + 2)
 
 
-@scenario("message.unpack_from.framing", functions=[M + ".unpack_from"], max_unroll=2)
-def s_unpack_framing(vc):
-    """RFC 1035 §4.1 read side, name reader / RDATA decompression abstracted by their contracts: sections are read in
-    order with the counts of the header, every field from the offset where the previous one ended, RDATA is the RDLENGTH
-    octets after the record header (or their decompression for name-bearing types); anything truncated is a parse error;
-    no other exception."""
+@scenario("message.unpack_from.total", functions=[M + ".unpack_from"], max_unroll=1)
+def s_unpack_total(vc):
+    """Arbitrary bytes (sections of <= 1 entry each): the framing code of DNSMessage.unpack_from raises nothing but the parse
+    error (struct.error), given that the name reader / decompressor raise nothing else (their contracts)."""
     buf = vc.sym_bytes("buf")
-    off = vc.sym_int("off", lo=0)
-    L = len_(buf)
-    vc.assume(off + 12 <= L)
-    shape = vc.case("shape", [(1, 1, 0, 0), (0, 0, 1, 1), (2, 0, 0, 0)])
-    for k in range(4):
-        vc.assume(be16(buf, off + 4 + 2 * k) == shape[k])
     R = Recorder(vc)
     R.install(vc)
-    out = vc.call(M + ".unpack_from", vc.const(M), buf, off, None)
+    out = vc.call(M + ".unpack_from", vc.const(M), buf, 0, None)
     vc.ensure("total.only_parse_error", Or(out.ok, raised_is(out, SE())))
-    pos = off + 12
-    ni = 0
-    exp_q, exp_rr = [], [[], [], []]
+    if out.ok:
+        vc.ensure("ok.consumed_within_buffer", And(out.result[0] >= 12, out.result[0] <= len_(buf)))
 
-    def next_name(pos):
-        nonlocal ni
-        if ni >= len(R.names):
-            vc.ensure("names.read_for_every_entry", False)
-            return None
-        r = R.names[ni]
-        ni += 1
-        vc.ensure(f"name{ni - 1}.read_where_previous_field_ended", r["offset"] == pos)
-        vc.ensure(f"name{ni - 1}.same_buffer_and_cache", r["buffer"] is buf and r["cache"] is R.names[0]["cache"])
-        if vc.branch(r["fails"]):
-            vc.ensure("bad_name.parse_error", raised_is(out, SE()))
-            return None
-        return r
 
+@scenario("message.unpack_from.framing", functions=[M + ".unpack_from"], max_unroll=2)
+def s_unpack_framing(vc):
+    """RFC 1035 §4.1 read side on a buffer laid out per the RFC (name regions and RDATA of arbitrary length and content,
+    arbitrary trailing bytes), name reader / RDATA decompression abstracted by their contracts: sections are read in order
+    with the counts of the header, every field from the offset where the previous one ended, RDATA is the RDLENGTH octets
+    after the record header (or their decompression for name-bearing types), the returned offset is the end of the message."""
+    shape = vc.case("shape", [(1, 1, 0, 0), (0, 0, 1, 1), (2, 0, 0, 0)])
+    f = sym_header_fields(vc)
+    vc.assume(in_range(f))
+    parts = [be(f["id"], 2), be(spec_flags(f), 2)] + [be(n, 2) for n in shape]
+    regions = []           # name regions in wire order
+    qs, rrs = [], [[], [], []]
     for i in range(shape[0]):
-        r = next_name(pos)
-        if r is None:
-            return
-        pos = pos + r["length"]
-        if vc.branch(pos + 4 > L):
-            vc.ensure("truncated_question.parse_error", raised_is(out, SE()))
-            return
-        exp_q.append((r["name"], be16(buf, pos), be16(buf, pos + 2)))
-        pos = pos + 4
-    ci = di = 0
+        N = vc.sym_bytes(f"q{i}_name_region")
+        vc.assume(len_(N) >= 1)
+        t, c = vc.sym_int(f"q{i}_type", lo=0, hi=65535), vc.sym_int(f"q{i}_class", lo=0, hi=65535)
+        regions.append(N)
+        qs.append((t, c))
+        parts += [N, be(t, 2), be(c, 2)]
     for sec in range(3):
         for i in range(shape[1 + sec]):
-            r = next_name(pos)
-            if r is None:
-                return
-            pos = pos + r["length"]
-            if vc.branch(pos + 10 > L):
-                vc.ensure("truncated_rr_header.parse_error", raised_is(out, SE()))
-                return
-            typ, cls, ttl, rdlen = be16(buf, pos), be16(buf, pos + 2), be32(buf, pos + 4), be16(buf, pos + 8)
-            pos = pos + 10
-            if vc.branch(pos + rdlen > L):
-                vc.ensure("truncated_rdata.parse_error", raised_is(out, SE()))
-                return
-            vc.ensure("type_table.consulted_with_record_type", ci < len(R.cancomp) and vc.eq(R.cancomp[min(ci, len(R.cancomp) - 1)]["type"], typ))
-            if ci >= len(R.cancomp):
-                return
-            comp = R.cancomp[ci]["result"]
-            ci += 1
-            if vc.branch(comp):
-                vc.ensure("decompress.called", di < len(R.decomp))
-                if di >= len(R.decomp):
-                    return
-                d = R.decomp[di]
-                di += 1
-                vc.ensure("decompress.args", And(d["buffer"] is buf, d["offset"] == pos, d["end"] == pos + rdlen, d["cache"] is R.names[0]["cache"]))
-                data = d["result"]
-            else:
-                data = buf[pos:pos + rdlen]
-            exp_rr[sec].append((r["name"], typ, cls, ttl, data))
-            pos = pos + rdlen
-    vc.ensure("wellformed.ok", out.ok)
+            tag = f"rr{sec}_{i}"
+            N = vc.sym_bytes(f"{tag}_name_region")
+            D = vc.sym_bytes(f"{tag}_rdata")
+            vc.assume(And(len_(N) >= 1, len_(D) <= 65535))
+            t, c, ttl = vc.sym_int(f"{tag}_type", lo=0, hi=65535), vc.sym_int(f"{tag}_class", lo=0, hi=65535), vc.sym_int(f"{tag}_ttl", lo=0, hi=2 ** 32 - 1)
+            regions.append(N)
+            rrs[sec].append((t, c, ttl, D))
+            parts += [N, be(t, 2), be(c, 2), be(ttl, 4), be(len_(D), 2), D]
+    trailing = vc.sym_bytes("trailing")
+    buf = concat_all(parts + [trailing])
+    starts, pos = [], 12
+    k = 0
+    for i in range(shape[0]):
+        starts.append(pos)
+        pos = pos + len_(regions[k]) + 4
+        k += 1
+    rdata_at = []
+    for sec in range(3):
+        for (t, c, ttl, D) in rrs[sec]:
+            starts.append(pos)
+            pos = pos + len_(regions[k]) + 10
+            rdata_at.append((pos, pos + len_(D)))
+            pos = pos + len_(D)
+            k += 1
+    end = pos
+    names = [vc.sym_str(f"name{i}") for i in range(len(regions))]
+    calls = dict(n=[], c=[], d=[])
+    comp = [vc.sym_bool(f"compressible{i}") for i in range(len(rdata_at))]
+    dec = [vc.sym_bytes(f"decompressed{i}") for i in range(len(rdata_at))]
+
+    def read_name(v, buffer, offset, cache):
+        i = len(calls["n"])
+        calls["n"].append((buffer, offset, cache))
+        if i >= len(names):
+            raise_(v, SE())
+        return (names[i], len(regions[i])) if v.mode == "native" else STuple([names[i], len_(regions[i])])
+
+    def can_compress(v, record_type):
+        i = len(calls["c"])
+        calls["c"].append(record_type)
+        return ret_(v, comp[min(i, len(comp) - 1)])
+
+    def decompress(v, buffer, offset, end_data, cache):
+        i = len(calls["d"])
+        calls["d"].append((buffer, offset, end_data, cache))
+        return ret_(v, dec[min(i, len(dec) - 1)])
+
+    vc.summary(DN + "unpack_from_with_compression", read_name)
+    vc.summary(DN + "record_data_can_have_compression", can_compress)
+    vc.summary(DN + "decompress_from_record_data", decompress)
+    out = vc.call(M + ".unpack_from", vc.const(M), buf, 0, None)
+    vc.ensure("ok", out.ok)
     if not out.ok:
         return
-    vc.ensure("no_extra_calls", ni == len(R.names) and ci == len(R.cancomp) and di == len(R.decomp))
-    vc.ensure("end_offset", out.result[0] == pos)
+    vc.ensure("names.one_read_per_entry", len(calls["n"]) == len(regions))
+    for i, (b, o, c) in enumerate(calls["n"][:len(regions)]):
+        vc.ensure(f"name{i}.read_where_previous_field_ended", o == starts[i])
+        vc.ensure(f"name{i}.whole_message_and_shared_cache", b is buf and c is calls["n"][0][2])
+    vc.ensure("end_offset", out.result[0] == end)
     msg = out.result[1]
-    vc.ensure("questions.count", len_(msg.questions) == len(exp_q))
-    if len_(msg.questions) == len(exp_q):
-        for i, (n, t, c) in enumerate(exp_q):
+    check_header_fields(vc, msg, f, "header")
+    vc.ensure("questions.count", len_(msg.questions) == len(qs))
+    if len_(msg.questions) == len(qs):
+        for i, (t, c) in enumerate(qs):
             q = msg.questions[i]
-            vc.ensure(f"question{i}.fields", And(q.name == n, q.type == t, q.class_ == c))
+            vc.ensure(f"question{i}.fields", And(q.name == names[i], q.type == t, q.class_ == c))
+    vc.ensure("type_table.consulted_once_per_record", len(calls["c"]) == len(rdata_at))
+    k, r = shape[0], 0
+    di = 0
     for sec, attr in enumerate(("answers", "authorities", "additionals")):
         lst = getattr(msg, attr)
-        vc.ensure(f"{attr}.count", len_(lst) == len(exp_rr[sec]))
-        if len_(lst) == len(exp_rr[sec]):
-            for i, (n, t, c, ttl, data) in enumerate(exp_rr[sec]):
-                rr = lst[i]
-                vc.ensure(f"{attr}{i}.header_fields", And(rr.name == n, rr.type == t, rr.class_ == c, rr.ttl == ttl))
-                vc.ensure(f"{attr}{i}.data", rr.data == data)
+        vc.ensure(f"{attr}.count", len_(lst) == len(rrs[sec]))
+        if len_(lst) != len(rrs[sec]):
+            return
+        for i, (t, c, ttl, D) in enumerate(rrs[sec]):
+            rr = lst[i]
+            vc.ensure(f"{attr}{i}.header_fields", And(rr.name == names[k], rr.type == t, rr.class_ == c, rr.ttl == ttl))
+            if r < len(calls["c"]):
+                vc.ensure(f"{attr}{i}.type_table_asked_for_its_type", vc.eq(calls["c"][r], t))
+            if vc.branch(comp[r]):
+                vc.ensure(f"{attr}{i}.decompressed", di < len(calls["d"]))
+                if di < len(calls["d"]):
+                    b, o, e, c2 = calls["d"][di]
+                    vc.ensure(f"{attr}{i}.decompress_args", And(b is buf, o == rdata_at[r][0], e == rdata_at[r][1], c2 is calls["n"][0][2]))
+                    vc.ensure(f"{attr}{i}.data", rr.data == dec[di])
+                di += 1
+            else:
+                vc.ensure(f"{attr}{i}.data", rr.data == D)
+            k += 1
+            r += 1
+    vc.ensure("decompress.only_for_name_bearing_types", di == len(calls["d"]))
 
 
 @scenario("message.unpack", functions=[M + ".unpack"])
